@@ -218,4 +218,22 @@ def instance_fingerprint(instance: JobShopInstance):
         # cached array views handed out to callers (an observer must not write through them)
         "dma": arr(instance.durations_matrix_array),
         "mma": arr(instance.machines_matrix_array),
+        # every other cached view is a mutable list that callers receive by reference
+        "views": {v: _view(instance, v) for v in _LIST_VIEWS},
+        "metadata": repr(sorted((str(k), repr(x)) for k, x in instance.metadata.items())),
     }
+
+
+_LIST_VIEWS = ("durations_matrix", "machines_matrix", "operations_by_machine", "max_duration_per_job",
+               "max_duration_per_machine", "job_durations", "machine_loads", "num_machines", "num_operations",
+               "num_jobs", "is_flexible", "max_duration", "total_duration")
+
+
+def _view(instance, name):
+    try:
+        v = getattr(instance, name)
+    except Exception as ex:  # noqa: BLE001  (a view that cannot be computed stays "the same" only if it keeps failing)
+        return "exc:" + type(ex).__name__
+    if name == "operations_by_machine":
+        return [[getattr(o, "operation_id", None) for o in ops] for ops in v]
+    return repr(v)
